@@ -1,6 +1,7 @@
 """C01  Every accepted query gets exactly one matching answer on every transport."""
 import json
 import os
+import re
 from vlib import Check, read_ndjson, write_ndjson, main, Undecided
 
 TRANSPORTS = ["udp", "tcp", "dot", "doh-post", "doh-get", "doh-json", "doq", "dnscrypt-udp", "dnscrypt-tcp"]
@@ -40,8 +41,29 @@ def run(c: Check):
     pkg = read_ndjson(out)
     # ---- (ii) the real servers over loopback sockets, one deterministic handler
     env = {"VERIF_PER_CLASS": 6 if th else 1, "VERIF_RANDOM": 150 if th else 6, "VERIF_EQ": 200 if th else 12}
-    out, _ = c.go_harness("internal/dnsserver", "^TestVerifC01Sock$", files=["c01_test.go", "c01sock_test.go", "vlab_test.go"],
-                          env=env, timeout=1500)
+    try:
+        out, _ = c.go_harness("internal/dnsserver", "^TestVerifC01Sock$", files=["c01_test.go", "c01sock_test.go", "vlab_test.go"],
+                              env=env, timeout=1500)
+    except Undecided as e:
+        # The servers' own last words: a panic in a listener's loop is logged by handlePanicAndExit
+        # ("panic encountered, exiting") right before it ends the whole process -- which is the process
+        # of this harness.  That is the code's behaviour (a wire input took every listener down), not a
+        # failure of the driver.
+        o = getattr(e, "output", "")
+        lf = getattr(e, "partial", "") + ".serverlog"
+        if os.path.exists(lf):
+            o += "\n" + open(lf, errors="replace").read()[-200000:]
+        i = o.find("panic encountered, exiting")
+        if i < 0:
+            raise
+        done = read_ndjson(e.partial) if os.path.exists(getattr(e, "partial", "")) else []
+        last = done[-1] if done else {}
+        c.violation({"kind": "process-exit", "proto": re.sub(r".*\((\w+)://.*", r"\1", o[max(0, i - 80):i].splitlines()[-1])},
+                    "C01 a listener's loop panicked and ended the whole process (handlePanicAndExit) while the socket-level "
+                    "inputs were being sent; last completed input: %s over %s; the server said: %s" % (
+                        last.get("gen"), last.get("t"), o[max(0, i - 120):i + 1500]),
+                    {"server_output": o[max(0, i - 200):i + 6000], "last_completed_event": last})
+        return
     sock = read_ndjson(out)
 
     for e in sock:
